@@ -15,7 +15,7 @@ from ..decide import outcomes
 from ..effects import Effects
 from ..fold import Inst, is_unknown
 from ..spec import tables as T
-from .common import (JWE_CONSUME, JWE_PRODUCE, JWS_CONSUME, JWS_PRODUCE, can_reach_exit, const_value, entries, is_const, scope_of,
+from .common import (find_local, JWE_CONSUME, JWE_PRODUCE, JWS_CONSUME, JWS_PRODUCE, can_reach_exit, const_value, entries, is_const, scope_of,
                      succ_by_label)
 from .c05 import _resolve_local
 
@@ -76,7 +76,8 @@ def r14_2(ctx) -> None:
     op = gk.pos_params[1]
     urp = gk.pos_params[2]
     # kid is read from the merged headers of the object
-    kd = [d for d in eng.flow._defs(gk).get("kid", []) if d[0] == "assign"]
+    kidv = find_local(eng, gk, lambda t: t == f"{op}.headers().get('kid')")
+    kd = [d for d in eng.flow._defs(gk).get(kidv, []) if d[0] == "assign"]
     ok_kid = len(kd) == 1 and _resolve_local(eng, gk, kd[0][1]) == f"{op}.headers().get('kid')"
     ctx.check(ok_kid, "R14.2", gk, gk.node, f"{gk.short} :: kid source", "the kid used for key selection is not the token's (merged) header kid", "kid = obj.headers().get('kid')", construct="kid source")
     ks = P.cls(KS)
@@ -88,7 +89,7 @@ def r14_2(ctx) -> None:
     ok = len(picks) == 1 and len(gets) == 1
     if ok:
         pn, gn = cfg.node_of(picks[0].node), cfg.node_of(gets[0].node)
-        tk = [t for t in cfg.nodes if t.kind == "test" and norm(t.ast) == "kid"]
+        tk = [t for t in cfg.nodes if t.kind == "test" and norm(t.ast) == kidv]
         tu = [t for t in cfg.nodes if t.kind == "test" and norm(t.ast) == urp]
         ok = bool(tk) and bool(tu)
         if ok:
@@ -98,7 +99,7 @@ def r14_2(ctx) -> None:
             ok = pn not in r1 and pn not in r2
             # with a kid present the lookup is by kid
             r3 = cfg.reachable(cfg.entry, edge_filter=lambda a, b, l: not (a in tk and l == "false"))
-            ok = ok and gn in r3 and norm(gets[0].node.args[0]) == "kid"
+            ok = ok and gn in r3 and norm(gets[0].node.args[0]) == kidv
     ctx.check(ok, "R14.2", gk, gk.node, f"{gk.short} :: selection", "a random key is picked although the header names a kid (or without use_random), or the kid lookup does not use the header kid",
               "pick_random_key iff use_random and not kid; otherwise get_by_kid(kid)", construct="guess_key selection")
     # after the random pick: ensure_kid and write-back
@@ -198,13 +199,27 @@ def r14_4_5(ctx) -> None:
     cfg = cfg_of(pr)
     sn = pr.self_name
     ap = pr.pos_params[1]
-    kt = [d for d in eng.flow._defs(pr).get("key_types", []) if d[0] == "assign"]
-    okt = len(kt) == 1 and norm(kt[0][1]) == f"{sn}.algorithm_keys.get({ap})"
+    KT = f"{sn}.algorithm_keys.get({ap})"
     comp = [n for n in fn_nodes(pr) if isinstance(n, ast.ListComp)]
-    okf = any(norm(c.generators[0].iter) == f"{sn}.keys" and len(c.generators[0].ifs) == 1 and norm(c.generators[0].ifs[0]) == f"{norm(c.generators[0].target)}.key_type in key_types"
-              for c in comp)
+    okt = okf = False
+    flt = None
+    for c in comp:
+        g = c.generators[0]
+        if norm(g.iter) == f"{sn}.keys" and len(g.ifs) == 1 and isinstance(g.ifs[0], ast.Compare) and isinstance(g.ifs[0].ops[0], ast.In) \
+                and norm(g.ifs[0].left) == f"{norm(g.target)}.key_type" and norm(c.elt) == norm(g.target):
+            okf = True
+            flt = c
+            okt = _resolve_local(eng, pr, g.ifs[0].comparators[0]) == KT
     ch = [s for s in eng.cg.calls_in(pr) if isinstance(s.node, ast.Call) and any(x == "random.choice" for x in s.ext)]
-    okc = bool(ch) and all(norm(s.node.args[0]) == "keys" for s in ch)
+    # the pool handed to random.choice is the filtered list (or the whole set when the algorithm has no key-type entry)
+    okc = bool(ch) and flt is not None
+    for s_ in ch:
+        a0 = s_.node.args[0]
+        if isinstance(a0, ast.Name):
+            dd = [d[1] for d in eng.flow._defs(pr).get(a0.id, []) if d[0] == "assign"]
+            okc = okc and bool(dd) and all(d is flt or norm(d) == f"{sn}.keys" for d in dd) and any(d is flt for d in dd)
+        else:
+            okc = okc and a0 is flt
     ctx.check(okt and okf and okc, "R14.4", pr, pr.node, f"{pr.short} :: filter", "the random pick is not restricted to keys of the key type(s) the algorithm requires",
               "keys = [k for k in self.keys if k.key_type in algorithm_keys.get(alg)]; random.choice(keys)", construct="pick_random_key filter")
     # R14.5
@@ -293,10 +308,11 @@ def r14_6_7(ctx) -> None:
     gb, pr = ks.methods["get_by_kid"], ks.methods["pick_random_key"]
     gets = [s for s in eng.cg.calls_in(gs) if gb in s.callees and isinstance(s.node, ast.Call)]
     picks = [s for s in eng.cg.calls_in(gs) if pr in s.callees and isinstance(s.node, ast.Call)]
-    sk = [d for d in eng.flow._defs(gs).get("skid", []) if d[0] == "assign"]
-    ok = len(gets) == 1 and len(picks) == 1 and len(sk) == 1 and _resolve_local(eng, gs, sk[0][1]).endswith(".headers().get('skid')") and norm(gets[0].node.args[0]) == "skid"
+    skv = find_local(eng, gs, lambda t_: t_.endswith(".headers().get('skid')"))
+    sk = [d for d in eng.flow._defs(gs).get(skv, []) if d[0] == "assign"]
+    ok = len(gets) == 1 and len(picks) == 1 and len(sk) == 1 and _resolve_local(eng, gs, sk[0][1]).endswith(".headers().get('skid')") and norm(gets[0].node.args[0]) == skv
     if ok:
-        t = [x for x in cfg.nodes if x.kind == "test" and norm(x.ast) == "skid"]
+        t = [x for x in cfg.nodes if x.kind == "test" and norm(x.ast) == skv]
         gn, pn = cfg.node_of(gets[0].node), cfg.node_of(picks[0].node)
         ok = bool(t) and pn not in cfg.reachable(cfg.entry, edge_filter=lambda a, b, l: not (a in t and l == "false")) and \
             gn not in cfg.reachable(cfg.entry, edge_filter=lambda a, b, l: not (a in t and l == "true"))
